@@ -167,9 +167,19 @@ func (x *Exec) callStatic(st *State, fr *Frame, in ssa.Instruction, fn *ssa.Func
 		return
 	}
 	c := x.contractFor(fn)
-	if c != nil && !c.Inline && fr != nil && x.pureEval == 0 {
+	// function literals are executed in place unless they carry a real contract (requires/ensures)
+	modular := c != nil && !c.Inline && fr != nil && x.pureEval == 0
+	if modular && fn.Parent() != nil {
+		modular = false
+		for _, cl := range c.Clauses {
+			if cl.Kind == "ensures" || cl.Kind == "requires" {
+				modular = true
+			}
+		}
+	}
+	if modular {
 		x.assertBeforeCall(st, fr, in, fn, args)
-		x.applyContract(st, fr, in, fn, c, args, k)
+		x.applyContract(st, fr, in, fn, c, bind, args, k)
 		return
 	}
 	if fn.Blocks == nil {
@@ -260,7 +270,16 @@ func (x *Exec) execFunction(st *State, fn *ssa.Function, bind []Val, args []Val,
 
 // ---------- contract application at a call site ----------
 
-func (x *Exec) applyContract(st *State, fr *Frame, in ssa.Instruction, fn *ssa.Function, c *FuncContract, args []Val, k callCont) {
+func (x *Exec) applyContract(st *State, fr *Frame, in ssa.Instruction, fn *ssa.Function, c *FuncContract, bind []Val, args []Val, k callCont) {
+	// captured variables of a function literal are addressed by name in its contract
+	freeCells := map[string]*Cell{}
+	for i, fv := range fn.FreeVars {
+		if i < len(bind) {
+			if p, ok := bind[i].(*Place); ok && p.Kind == pkCell && len(p.Path) == 0 {
+				freeCells[fv.Name()] = p.Cell
+			}
+		}
+	}
 	pre := st.clone()
 	params := map[string]Val{}
 	for i, p := range fn.Params {
@@ -273,6 +292,7 @@ func (x *Exec) applyContract(st *State, fr *Frame, in ssa.Instruction, fn *ssa.F
 			env.vars[n] = v
 		}
 		env.entryAlloc = pre.allocCtr
+		env.freeCells = freeCells
 		return env
 	}
 	// requires
@@ -283,6 +303,31 @@ func (x *Exec) applyContract(st *State, fr *Frame, in ssa.Instruction, fn *ssa.F
 		g := mkEnv(st, nil).evalBool(cl.E)
 		x.oblige(st, fr, "requires@call:"+funcKey(fn), clauseTag(cl), in, cl.Line, g, "precondition of "+funcKey(fn)+": "+cl.Src)
 		x.assume(st, g)
+	}
+	// function-typed arguments must satisfy the callee's `param` specifications
+	for i, p := range fn.Params {
+		ps, ok := c.Params[p.Name()]
+		if !ok || i >= len(args) {
+			continue
+		}
+		switch args[i].(type) {
+		case *Closure, *StaticFn:
+			env := mkEnv(st, nil)
+			var bvs []Val
+			var binds []string
+			for _, pn := range ps.Params {
+				nm := x.fresh("pv")
+				binds = append(binds, "("+nm+" Int)")
+				env.vars[pn] = Term{nm, types.Typ[types.Int]}
+				bvs = append(bvs, Term{nm, types.Typ[types.Int]})
+			}
+			want := env.term(env.eval(ps.Body))
+			got := x.callValPure(st, fr, args[i], bvs)
+			goal := "(forall (" + strings.Join(binds, "") + ") " + eq(got.S, want.S) + ")"
+			x.oblige(st, fr, "param-spec:"+funcKey(fn)+"."+p.Name(), "", in, i, goal, "argument "+p.Name()+" satisfies `param "+ps.Src+"`")
+		default:
+			x.note("function argument " + p.Name() + " of " + funcKey(fn) + " is itself abstract: its `param` specification is assumed")
+		}
 	}
 	// modifies
 	var mods []string
@@ -303,6 +348,14 @@ func (x *Exec) applyContract(st *State, fr *Frame, in ssa.Instruction, fn *ssa.F
 		x.frameCheck(st, fr, m, in)
 	}
 	x.havocForCall(st, fn, mods)
+	// captured variables the literal assigns
+	for i := range x.modSetOf(fn).frees {
+		if i < len(bind) {
+			if p, ok := bind[i].(*Place); ok && p.Kind == pkCell && len(p.Path) == 0 {
+				st.cells[p.Cell] = x.havocCell(st, p.Cell, st.cells[p.Cell])
+			}
+		}
+	}
 	// results
 	sig := fn.Signature
 	var res []Val
@@ -723,7 +776,9 @@ func (x *Exec) applyIfaceContract(st *State, fr *Frame, in ssa.Instruction, cc *
 		}
 	}
 	x.seqCtr++
-	st.trace = append(st.trace, &CallEvent{Callee: name, Args: append([]Val{recv}, args...), Res: res, Seq: x.seqCtr})
+	ev := &CallEvent{Callee: name, Args: append([]Val{recv}, args...), Res: res, Seq: x.seqCtr}
+	st.trace = append(st.trace, ev)
+	ev.After = st.clone()
 	k(st, packResults(res))
 }
 
